@@ -10,6 +10,7 @@ From Coquelicot Require Import Coquelicot.
 From MM Require Import Base.Num Model.Dists Proofs.Dists.
 From MM Require Import RealSpec.Normal RealSpec.TDist RealSpec.TDistGen.
 From MM Require Import Proofs.NormalR Proofs.NormalLim Proofs.TDistR Proofs.TDistGen.
+From MM Require Check.C05 Proofs.CheckC05.
 
 (* ---- NormalDist with Sigma > 0 (over the reals) ---- *)
 (* PDF is (strictly) positive *)
@@ -208,3 +209,16 @@ Proof. vm_compute. repeat split; reflexivity. Qed.
 Example C05_invcdf_hypothesis_satisfiable : forall mu sigma : R, (0 < sigma)%R ->
   exists q : R -> R, forall p, (0 < p < 1)%R -> Phi mu sigma (q p) = p.
 Proof. exact quantile_hyp_satisfiable. Qed.
+
+(* ---------- what an accepted case line means, for the sub-checks with exact expected values ----------
+   For EVERY line (nothing about the generator): if the comparator returns V_OK on a line that parses to a
+   DeltaDist case, every reported PDF/CDF/InvCDF value equals the model's delta_pdf / delta_cdf / delta_invcdf
+   (same NaN, same signed infinity, Qeq on finite values); on a Rand case every draw is finite and within
+   2*2^-52*(|z sigma| + |mu + sigma z|) of normal_rand mu sigma z; on a scan case there is at least one pair,
+   all values are finite and in [0,1], and xlo < xhi gives CDF(xlo) <= CDF(xhi) + 1e-12.  (Ops 1, 2 and 4 —
+   the normal / t grids — judge laws on the outputs plus certificate goals and are not covered here.) *)
+Theorem C05_check_ok_sound_exact_ops : forall line tag pos diag c r,
+  Check.C05.check_C05 line = verdict V_OK tag pos diag -> Check.C05.p_line line = Some (c, r) ->
+  Proofs.CheckC05.case05_exact_ok c.
+Proof. exact Proofs.CheckC05.check_exact_ok_sound. Qed.
+Print Assumptions C05_check_ok_sound_exact_ops.
